@@ -48,7 +48,7 @@ def fit_case(draw):
         x = sorted([0.5 * span * i / m for i in range(m)] + [0.5 * span + 0.5 * span * draw(st.integers(0, 40)) / 40.0 for _ in range(draw(st.integers(1, 8)))])
     x = sorted(set(x))
     n = len(x)
-    nord = draw(st.sampled_from([1, 2, 2, 3, 3, 4, 4, 4, 5]))
+    nord = draw(st.sampled_from([4, 3, 2, 5, 1, 4, 3, 2]))
     opt = draw(st.sampled_from(['nbkpts', 'nbkpts', 'bkspace', 'bkpt']))
     if opt == 'nbkpts':
         kw = dict(nbkpts=draw(st.integers(2, 12)))
@@ -185,7 +185,7 @@ def fit_nontrivial(case, labels):
 @st.composite
 def spd_case(draw):
     n = draw(st.integers(1, 40))
-    bw = draw(st.sampled_from([1, 2, 3, 4, 5, 6]))
+    bw = draw(st.sampled_from([3, 2, 4, 6, 5, 1]))
     L0 = [[draw(uf) for _ in range(bw)] for _ in range(n)]
     return dict(n=n, bw=bw, L0=L0, shift=draw(st.sampled_from([1e-3, 0.1, 1.0, 10.0])), b=[draw(uf) for _ in range(n)],
                 scale=draw(st.sampled_from([1.0, 1e6, 1e-6])))
@@ -289,7 +289,7 @@ def bad_body(case):
 # ------------------------------------------------------------------ (4) ill-posed fits
 @st.composite
 def ill_case(draw):
-    nord = draw(st.sampled_from([1, 2, 2, 3, 3, 4, 4, 4, 5]))
+    nord = draw(st.sampled_from([4, 3, 2, 5, 1, 4, 3, 2]))
     kind = draw(st.sampled_from(['gap', 'gap', 'three-islands', 'zero-weight-run', 'all-zero-weight', 'few-points', 'lone-end-point']))
     n = draw(st.integers(12, 120))
     u = [0.5 * (1 + draw(uf)) for _ in range(n)]
